@@ -63,6 +63,19 @@ theorem never_panics (s : Schema) (r : Req) (hs : EnvOK s) :
     simp [hw, Written.status] at h
     exact ⟨ct, hd, body, by rw [h]⟩
 
+/-- The two other panic sites of the Go code are explicit branches of the model; both are
+    unreachable. (1) `parts[0]` after `strings.Split(k, "[")` (handler.go:178): the split of any key
+    has at least one part. -/
+theorem query_key_split_nonempty (k : List Char) : splitOn '[' k ≠ [] := splitOn_ne_nil _ _
+
+/-- (2) `*relationship.Data` on the related-resource routes (handler.go:325, 353): with the stock
+    to-one/to-many resolvers a located relationship always carries data when data is requested, so the
+    nil dereference of F-19d (a custom resolver omitting `Data`, outside the envelope) cannot occur. -/
+theorem related_data_present (t : TypeDef) (id : RId) (name : String) (rel : Relationship)
+    (h : t.getRelationship id name = .ok (some rel)) : rel.data ≠ none := by
+  obtain ⟨d, l, _, _, rfl⟩ := getRelationship_some t id name rel h
+  simp
+
 /-! ## the document invariants -/
 
 /-- **media_type_and_version**: whatever is written carries the JSON:API media type and a document
@@ -87,12 +100,6 @@ theorem never_data_and_errors (s : Schema) (r : Req) (st : Nat) (ct : String) (h
     | ok d links hs' st' _ => right; rfl
   · rw [hb.1]; left; rfl
 
-/-- "The status of the first error carrying one, 500 if none does", stated with `find?`. -/
-def firstErrorStatus (es : List Err) : Nat :=
-  match es.find? (fun e => e.status != .empty) with
-  | some e => errStatus e
-  | none => 500
-
 /-- The status-derivation loop of `ServeHTTP` computes `firstErrorStatus` for *every* error list
     (the router itself only ever produces one-element lists). -/
 theorem statusOfErrors_eq_first (es : List Err) : statusOfErrors es = firstErrorStatus es := by
@@ -109,6 +116,31 @@ theorem statusOfErrors_eq_first (es : List Err) : statusOfErrors es = firstError
       simp [errStatus, hst]
     | junk =>
       simp [errStatus, hst]
+
+/-- The response-writing half of `ServeHTTP` on a document carrying an *arbitrary* error list (what
+    the `verif` hook injects): the status is that of the first error carrying one, 500 if none does;
+    200 for the empty list. This is the part of `status_from_errors` that no request can reach
+    through the router (which only builds one-element lists). -/
+theorem status_from_injected_errors (es : List Err) :
+    (serveResponse { doc := { errors := es } }).status =
+      if es = [] then some 200
+      else if InRange (firstErrorStatus es) then some (firstErrorStatus es) else none := by
+  rw [serveResponse_eq]
+  have hm : ({ errors := es } : Doc).marshalable = true := rfl
+  simp only [hm, if_true, Response.rawStatus]
+  cases es with
+  | nil => simp [Written.status]
+  | cons e rest =>
+    simp only [List.length_cons, Nat.zero_lt_succ, if_true, statusOfErrors_eq_first, reduceCtorEq, if_false]
+    by_cases hr : InRange (firstErrorStatus (e :: rest))
+    · have : ¬ ((firstErrorStatus (e :: rest) < 100 || firstErrorStatus (e :: rest) > 999) = true) := by
+        unfold InRange at hr; simp; omega
+      simp [this, hr, Written.status]
+    · have : (firstErrorStatus (e :: rest) < 100 || firstErrorStatus (e :: rest) > 999) = true := by
+        unfold InRange at hr; simp; omega
+      simp [this, hr, Written.status]
+
+example : (serveResponse { doc := { errors := [⟨.empty⟩, ⟨.num 403⟩, ⟨.num 404⟩] } }).status = some 403 := by decide
 
 /-- **status_from_errors**: errors present → the HTTP status is that of the first error carrying
     one (500 if none does); no errors → 2xx (200, or 201 for a created resource). -/
